@@ -81,6 +81,26 @@ def build_harness(tags="verif", race=False):
         return out
 
 
+GOYACC_SRC = "/root/go/pkg/mod/golang.org/x/tools@v0.29.0/cmd/goyacc/yacc.go"
+
+
+def build_goyacc():
+    """goyacc from the module cache (single file, no dependencies); None when the source is absent"""
+    out = os.path.join(BUILD, "goyacc")
+    if os.path.exists(out):
+        return out
+    if not os.path.exists(GOYACC_SRC):
+        return None
+    with Lock("gobuild"):
+        d = os.path.join(BUILD, "goyacc-src")
+        os.makedirs(d, exist_ok=True)
+        shutil.copy(GOYACC_SRC, os.path.join(d, "yacc.go"))
+        os.chmod(os.path.join(d, "yacc.go"), 0o644)
+        open(os.path.join(d, "go.mod"), "w").write("module goyacc\ngo 1.21\n")
+        p = sh(["go", "build", "-o", out, "."], cwd=d, env=GOENV, check=False)
+        return out if p.returncode == 0 else None
+
+
 def forbidden_scan():
     bad = []
     for root, _, files in os.walk(COQ):
